@@ -42,8 +42,9 @@ class _Device:
 _gen_classes = {}
 
 
-def forest_generator(name, vendor, forest, safe):
-    """a real PartialGenerator whose run_<vendor> yields `forest` ([[row, children], ...]) with self.block() for blocks"""
+def forest_generator(name, vendor, forest, safe, acl=CATCH_ALL, supports=True):
+    """a real PartialGenerator whose run_<vendor> yields `forest` ([[row, children], ...]) with self.block() for blocks;
+    acl=None: the generator declares no ACL for the vendor; supports=False: it is written for another vendor only"""
     from annet.generators import PartialGenerator
 
     def run_nodes(self, nodes):
@@ -57,10 +58,12 @@ def forest_generator(name, vendor, forest, safe):
     if kls is None:
         kls = _gen_classes[name] = type(name, (PartialGenerator,), {})
     g = kls(_Storage())
-    setattr(g, "acl_" + vendor, lambda dev: CATCH_ALL)
-    if safe:
-        setattr(g, "acl_safe_" + vendor, lambda dev: CATCH_ALL)
-    setattr(g, "run_" + vendor, lambda dev: run_nodes(g, forest))
+    v = vendor if supports else "someothervendor"
+    if acl is not None:
+        setattr(g, "acl_" + v, lambda dev: acl)
+        if safe:
+            setattr(g, "acl_safe_" + v, lambda dev: acl)
+    setattr(g, "run_" + v, lambda dev: run_nodes(g, forest))
     return g
 
 
@@ -120,8 +123,14 @@ class Session:
         d.hostname, d.fqdn, d.id, d.breed = hostname, hostname + ".example", 1, hw.vendor
         d.tags, d.storage, d.neighbours_ids = list(tags), _Storage(), []
         self.dev, self.vendor = d, hw.vendor
-        self.gens = [forest_generator("E2EGen%d%s" % (i, "Safe" if safe else ""), hw.vendor, forest, safe)
-                     for i, (forest, safe) in enumerate(gens)]
+        self.gens = []
+        for i, g in enumerate(gens):
+            if isinstance(g, dict):     # {"forest", "safe", "acl" (text | None), "supports"}
+                self.gens.append(forest_generator("E2EGen%dx" % i, hw.vendor, g.get("forest", []), g.get("safe", False),
+                                                  g.get("acl", CATCH_ALL), g.get("supports", True)))
+            else:
+                forest, safe = g
+                self.gens.append(forest_generator("E2EGen%d%s" % (i, "Safe" if safe else ""), hw.vendor, forest, safe))
         self.loader = _Loader(d, self.gens)
         self.dir = tempfile.mkdtemp(prefix="verif-e2e-")
         fmt = env.vendor_obj(hw.vendor).make_formatter()
